@@ -1,3 +1,46 @@
+/-
+C03 (aeskw) — the model is the code: `arrConcat`, `arrXor`, `Wrap`, `Unwrap` as TRANSLATED from
+/repo/crypto/aeskw/keywrap.go on this run (`KitModel/Generated/CodeC03KW.lean`, written by
+`harness/cmd/go2lean`) compute exactly what the hand-written model `Kit.CryptoGlue.wrap` / `unwrap`
+(`wrapRounds` over `kwRounds`, `wrapInner` / `unwrapInner` over the register list, `blocks8`) computes —
+so the theorems of `Props/C03.lean` and `Lemmas/CryptoGlueKW*.lean` (RFC 3394 structure, unwrap∘wrap,
+accepted set = image of wrap, tamper rejection) are theorems about the translated source text, and a
+change to the Go functions changes the definitions these theorems are about.
+
+Layout (bottom-up, one lemma per translated loop, each for ANY fuel: "the expected value, or `.nofuel`
+and then the fuel was at most …" — so equality for enough fuel and no-panic for every fuel come from
+the same induction):
+  * `arrConcat_loop1_cases` → `arrConcat_cases` → `arrConcat_code` (= `List.flatten`; `arrConcat()`
+    panics on `arrays[0]`: `arrConcat_code_empty`);
+  * `arrXor_loop1_cases` → `arrXor_cases` → `arrXor_code` (= `xor`, needs `len(arrL) ≤ len(arrR)`;
+    exactly when `len(arrR) < len(arrL)` the read `arrR[x]` at `x = len(arrR)` panics: `arrXor_code_short`);
+  * `Wrap_loop1_cases` (split into registers = `blocks8`), `Wrap_loop3_step` / `Wrap_loop3_cases`
+    (inner loop = `wrapInner`), `Wrap_loop2_cases` (outer loop = `wrapRounds` over `[j, …, 5]`),
+    `Wrap_loop5_cases` / `Wrap_loop4_cases` (assembly = `a ++ r.flatten`), `wrap_code_cases_anyLen`;
+  * `Unwrap_loop1_cases`, `Unwrap_loop3_step` / `Unwrap_loop3_cases` (inner loop, downwards =
+    `unwrapInner` on the first `i` registers, via `unwrapInner_snoc`), `Unwrap_loop2_cases` (outer loop,
+    downwards = `unwrapRounds`, a `foldr`, over `[0, …, j]`), `unwrap_code_cases`.
+
+Block cipher. `block.Encrypt(b, b)` / `block.Decrypt(b, b)` are arbitrary functions `B_Enc`, `B_Dec` on
+byte strings. `Wrap` needs ONLY: `B_Enc` maps 16-byte strings to 16-byte strings (`BlockCipher.Lawful.lenE`);
+`Unwrap` needs ONLY the same of `B_Dec` (`BlockCipher.Perm.lenD`). That is the in-place contract of
+`cipher.Block` (the callee writes into the caller's 16-byte `b`); without it the code really
+misbehaves (`wrap_code_panics_if_block_grows`). `D ∘ E = id` is used only by the round-trip transfer.
+
+Ranges. With `n = len/8 ≤ 2^60 - 1` the counter `t = n*j + i ≤ 6n < 2^63` never wraps, nor does any
+index; the only wrapping expression is `(n+1)*8` of `Wrap` at `len(cek) = 2^63 - 8`
+(`wrap_code_panics_at_max`), so `Wrap` is stated for `len(cek) + 8 ≤ 2^63 - 1` (the output length is a
+Go `int`) and `Unwrap` for `len(cipherText) ≤ 2^63 - 1`.
+
+Fuel. One `fuel` feeds every loop (a callee gets what is left after the caller's step). Exact least
+bounds: `Wrap`: `len(cek)/8 + 15`; `Unwrap`: `len(cipherText)/8 + 14` (`wrap_code_fuel_tight`,
+`unwrap_code_fuel_tight`): the last pass of the inner loop in the last round still has to run
+`arrXor` (8 bytes + 1).
+
+Trusted here: the translator and `KitModel/Go/Sem.lean` (Go's int64 wrap-around, slices as lists with
+capacity = length, `copy` as `fill`, `PutUint64` as `putU64BE`, `subtle.ConstantTimeCompare(a, iv) != 1`
+as `a ≠ iv`).
+-/
 import KitProofs.Props.C03Code
 import KitProofs.Lemmas.CryptoGlueKW
 import KitProofs.Props.C03
@@ -666,13 +709,21 @@ theorem divI64_len8 (s : List UInt8) (h : (s.length : Int) ≤ 92233720368547758
   unfold divI64 lenI
   rw [Int.tdiv_eq_ediv_of_nonneg (by omega), wrapI64_of_in (by unfold InI64; omega)]; simp
 
-/-- **Core.** For ANY fuel: the translated `Wrap` returns exactly what the model returns, or — only
-when `fuel ≤ len(cek)/8 + 14` — is still in one of its loops. Hypotheses: `E` keeps 16-byte blocks
-16 bytes long; `len(cek) + 8` (the length of the output) is a Go `int`. -/
-theorem wrap_code_cases (E D : List UInt8 → List UInt8)
+theorem wrap_2_63 : wrapI64 9223372036854775808 = -9223372036854775808 := by decide
+theorem dec_neg : decide ((0 : Int) ≤ -9223372036854775808) = false := by decide
+
+/-- **Core, every length that is a Go `int`.** For ANY fuel the translated `Wrap` is still in one of
+its loops (only when `fuel ≤ len(cek)/8 + 14`), or it has returned exactly what the model returns —
+except for the single aligned length `len(cek) = 2^63 - 8`, where `(n+1)*8 = 2^63` wraps to `-2^63`
+and `make([]byte, (n+1)*8)` panics (in Go as in the translation; no such slice can exist in a real
+process). Hypothesis: `E` keeps 16-byte blocks 16 bytes long. -/
+theorem wrap_code_cases_anyLen (E D : List UInt8 → List UInt8)
     (hE : ∀ b : List UInt8, b.length = 16 → (E b).length = 16) (cek : List UInt8)
-    (hlen : (cek.length : Int) + 8 ≤ 9223372036854775807) (fuel : Nat) :
-    Wrap fuel E D cek = .ok (enc' (wrap ⟨E, D⟩ cek))
+    (hlen : (cek.length : Int) ≤ 9223372036854775807) (fuel : Nat) :
+    Wrap fuel E D cek =
+      (if cek.length = 9223372036854775800 then
+         .panic "makeslice: len out of range: make([]byte, (n+1)*8)"
+       else .ok (enc' (wrap ⟨E, D⟩ cek)))
     ∨ (fuel ≤ cek.length / 8 + 14 ∧ Wrap fuel E D cek = .nofuel) := by
   unfold Wrap wrap
   simp only [ne8, modI64_len8, Bool.not_true, Bool.false_eq_true, ↓reduceIte]
@@ -682,22 +733,18 @@ theorem wrap_code_cases (E D : List UInt8 → List UInt8)
     simp only [h8', Bool.false_eq_true, ↓reduceIte, if_neg h8'']
     by_cases h16 : cek.length < 16
     · have : decide (lenI cek < 16) = true := decide_eq_true (by unfold lenI; omega)
+      have hmx : ¬ cek.length = 9223372036854775800 := by omega
       left
-      simp only [this, ↓reduceIte, if_pos h16, enc']
+      simp only [this, ↓reduceIte, if_pos h16, if_neg hmx, enc']
     · have h16' : decide (lenI cek < 16) = false := decide_eq_false (by unfold lenI; omega)
       simp only [h16', Bool.false_eq_true, ↓reduceIte, if_neg h16]
       -- the body
       have hn8 : 8 * (cek.length / 8) = cek.length := by omega
       have hnmax : 6 * (cek.length / 8) ≤ 9223372036854775807 := by omega
-      have hcmax : 8 * (cek.length / 8 + 1) ≤ 9223372036854775807 := by omega
       have hdiv := divI64_len8 cek (by omega)
       have hn0 : decide ((0 : Int) ≤ ((cek.length / 8 : Nat) : Int)) = true := decide_eq_true (by omega)
-      have hwc : wrapI64 (wrapI64 (((cek.length / 8 : Nat) : Int) + 1) * 8) =
-          ((8 * (cek.length / 8 + 1) : Nat) : Int) := by
-        have e1 : wrapI64 (((cek.length / 8 : Nat) : Int) + 1) = ((cek.length / 8 : Nat) : Int) + 1 :=
-          wrapI64_of_in (by unfold InI64; omega)
-        rw [e1, wrapI64_of_in (by unfold InI64; omega)]; push_cast; omega
-      have hwc0 : decide ((0 : Int) ≤ ((8 * (cek.length / 8 + 1) : Nat) : Int)) = true := decide_eq_true (by omega)
+      have hw1 : wrapI64 (((cek.length / 8 : Nat) : Int) + 1) = ((cek.length / 8 : Nat) : Int) + 1 :=
+        wrapI64_of_in (by unfold InI64; omega)
       generalize hnd : cek.length / 8 = n at *
       simp only [dec8, hdiv, hn0, iv_fill, Int.toNat_natCast, Bool.not_true, Bool.false_eq_true, ↓reduceIte]
       have hl0 : lenI (List.replicate n ([] : List UInt8)) = (n : Int) := by simp [lenI]
@@ -718,22 +765,613 @@ theorem wrap_code_cases (E D : List UInt8 → List UInt8)
           obtain ⟨g1, g2⟩ := wrapRounds_good E hE n kwRounds _ hgood
           simp only [blocks8_length] at g2
           generalize wrapRounds E n kwRounds (iv3394, blocks8 n cek) = st at *
-          simp only [hwc, hwc0, Int.toNat_natCast, Bool.not_true, Bool.false_eq_true, ↓reduceIte]
-          have hc0 : (fill (List.replicate (8 * (n + 1)) (0 : UInt8)) st.1).length = 8 * (n + 1) := by
-            rw [fill_length]; simp
-          have h4 := Wrap_loop4_cases E D cek st.1 (6 : Int) st.2 n g2 g1.2 hcmax fuel 0 _ (by omega) hc0
-          simp only [Int.natCast_zero, Int.zero_add, List.drop_zero, Nat.zero_add, Nat.mul_one] at h4
-          rcases h4 with h4 | ⟨h4f, h4⟩
-          · left
-            rw [h4]
-            have := fill_take_left (List.replicate (8 * (n + 1)) (0 : UInt8)) st.1 (by simp [g1.1]; omega)
-            rw [g1.1] at this
-            simp only [this, enc']
-          · right; rw [h4]; exact ⟨by omega, rfl⟩
+          simp only [hw1]
+          by_cases hmx : cek.length = 9223372036854775800
+          · -- `(n+1)*8 = 2^63` wraps
+            have e : ((n : Int) + 1) * 8 = 9223372036854775808 := by omega
+            left
+            simp only [e, wrap_2_63, dec_neg, Bool.not_false, ↓reduceIte, if_pos hmx]
+          · have hcmax : 8 * (n + 1) ≤ 9223372036854775807 := by omega
+            have hwc : wrapI64 (((n : Int) + 1) * 8) = ((8 * (n + 1) : Nat) : Int) := by
+              rw [wrapI64_of_in (by unfold InI64; omega)]; push_cast; omega
+            have hwc0 : decide ((0 : Int) ≤ ((8 * (n + 1) : Nat) : Int)) = true := decide_eq_true (by omega)
+            simp only [hwc, hwc0, Int.toNat_natCast, Bool.not_true, Bool.false_eq_true, ↓reduceIte, if_neg hmx]
+            have hc0 : (fill (List.replicate (8 * (n + 1)) (0 : UInt8)) st.1).length = 8 * (n + 1) := by
+              rw [fill_length]; simp
+            have h4 := Wrap_loop4_cases E D cek st.1 (6 : Int) st.2 n g2 g1.2 hcmax fuel 0 _ (by omega) hc0
+            simp only [Int.natCast_zero, Int.zero_add, List.drop_zero, Nat.zero_add, Nat.mul_one] at h4
+            rcases h4 with h4 | ⟨h4f, h4⟩
+            · left
+              rw [h4]
+              have := fill_take_left (List.replicate (8 * (n + 1)) (0 : UInt8)) st.1 (by simp [g1.1]; omega)
+              rw [g1.1] at this
+              simp only [this, enc']
+            · right; rw [h4]; exact ⟨by omega, rfl⟩
         · right; rw [h2]; exact ⟨by omega, rfl⟩
       · right; rw [h1]; exact ⟨by omega, rfl⟩
   · have h8' : (((cek.length % 8 : Nat) : Int) != 0) = true := by simp; omega
+    have hmx : ¬ cek.length = 9223372036854775800 := by omega
     left
-    simp only [h8', ↓reduceIte, if_pos h8, enc']
+    simp only [h8', ↓reduceIte, if_pos h8, if_neg hmx, enc']
+
+/-- **Core.** For ANY fuel: the translated `Wrap` returns exactly what the model returns, or — only
+when `fuel ≤ len(cek)/8 + 14` — is still in one of its loops. Hypotheses: `E` keeps 16-byte blocks
+16 bytes long; `len(cek) + 8` (the length of the output) is a Go `int`. -/
+theorem wrap_code_cases (E D : List UInt8 → List UInt8)
+    (hE : ∀ b : List UInt8, b.length = 16 → (E b).length = 16) (cek : List UInt8)
+    (hlen : (cek.length : Int) + 8 ≤ 9223372036854775807) (fuel : Nat) :
+    Wrap fuel E D cek = .ok (enc' (wrap ⟨E, D⟩ cek))
+    ∨ (fuel ≤ cek.length / 8 + 14 ∧ Wrap fuel E D cek = .nofuel) := by
+  have h := wrap_code_cases_anyLen E D hE cek (by omega) fuel
+  rwa [if_neg (by omega)] at h
+
+/-- The bound `len(cek) + 8 ≤ 2^63 - 1` of `wrap_code_eq_model` is the weakest: among the lengths
+that are a Go `int`, the only one it excludes that passes the two length checks is `2^63 - 8`, and
+there the function panics (given the fuel to get that far). -/
+theorem wrap_code_panics_at_max (E D : List UInt8 → List UInt8)
+    (hE : ∀ b : List UInt8, b.length = 16 → (E b).length = 16) (cek : List UInt8)
+    (hlen : cek.length = 9223372036854775800) (fuel : Nat) (hf : cek.length / 8 + 15 ≤ fuel) :
+    Wrap fuel E D cek = .panic "makeslice: len out of range: make([]byte, (n+1)*8)" := by
+  rcases wrap_code_cases_anyLen E D hE cek (by omega) fuel with h | ⟨hf', _⟩
+  · rwa [if_pos hlen] at h
+  · omega
+
+/-! ### `Unwrap`, first loop: `r[i] = cipherText[8(i+1) : 8(i+1)+8]` -/
+
+theorem Unwrap_loop1_cases (E D : List UInt8 → List UInt8) (c a : List UInt8) (nI : Int)
+    (rng : List (List UInt8)) (n : Nat) (hlen : 8 * (n + 1) ≤ c.length)
+    (hmax : (c.length : Int) ≤ 9223372036854775807) :
+    ∀ (fuel k : Nat) (r : List (List UInt8)), k ≤ n → r.length = n →
+      Unwrap_loop1 fuel E D c a nI r rng (n : Int) (k : Int) =
+          .ok (.brk (r.take k ++ blocks8 (n - k) (c.drop (8 * (k + 1))), (n : Int)))
+      ∨ (fuel ≤ n - k ∧ Unwrap_loop1 fuel E D c a nI r rng (n : Int) (k : Int) = .nofuel) := by
+  intro fuel
+  induction fuel with
+  | zero => intro k r _ _; right; exact ⟨by omega, by unfold Unwrap_loop1; rfl⟩
+  | succ fuel ih =>
+    intro k r hk hr
+    unfold Unwrap_loop1
+    by_cases hlt : k < n
+    · have h1 : decide ((k : Int) < (n : Int)) = true := decide_eq_true (by omega)
+      have h2 : decide (0 ≤ (k : Int) ∧ (k : Int) < lenI r) = true := decide_eq_true (by unfold lenI; omega)
+      have hw : wrapI64 (wrapI64 ((k : Int) + 1) * 8) = ((8 * (k + 1) : Nat) : Int) := by
+        have e1 : wrapI64 ((k : Int) + 1) = (k : Int) + 1 := wrapI64_of_in (by unfold InI64; omega)
+        rw [e1, wrapI64_of_in (by unfold InI64; omega)]; push_cast; omega
+      have h3 : decide (0 ≤ ((8 * (k + 1) : Nat) : Int) ∧ ((8 * (k + 1) : Nat) : Int) ≤ lenI c ∧ lenI c ≤ lenI c) = true :=
+        decide_eq_true (by unfold lenI; omega)
+      have hk1 : (k : Int) + 1 = ((k + 1 : Nat) : Int) := by push_cast; rfl
+      have hfill : fill (List.replicate (8 : Int).toNat (0 : UInt8)) (c.drop (8 * (k + 1))) =
+          (c.drop (8 * (k + 1))).take 8 := by
+        rw [fill_take _ _ (by simp; omega)]; simp
+      simp only [h1, dec8, h2, hw, h3, lenI_setAt, idxG_setAt_self r k _ (by omega : k < r.length),
+        slice_to_len, setAt_setAt, hfill, Bool.not_true, Bool.false_eq_true, ↓reduceIte]
+      rw [hk1]
+      rcases ih (k + 1) (setAt r (k : Int) ((c.drop (8 * (k + 1))).take 8)) (by omega)
+        (by simp [setAt, hr]) with h | ⟨hf, h⟩
+      · left
+        rw [h]
+        have ht : (setAt r (k : Int) ((c.drop (8 * (k + 1))).take 8)).take (k + 1) =
+            r.take k ++ [(c.drop (8 * (k + 1))).take 8] := by
+          simp only [setAt, Int.toNat_natCast]
+          exact take_set_succ r k _ (by omega)
+        rw [ht, blocks8_succ' (n - k) _ (by omega), List.drop_drop]
+        have e1 : n - (k + 1) = n - k - 1 := by omega
+        have e2 : 8 * (k + 1 + 1) = 8 * (k + 1) + 8 := by omega
+        simp only [e1, e2, List.append_assoc, List.cons_append, List.nil_append]
+      · right; exact ⟨by omega, h⟩
+    · have hkn : k = n := by omega
+      have h1 : decide ((k : Int) < (n : Int)) = false := decide_eq_false (by omega)
+      left
+      simp only [h1, Bool.false_eq_true, ↓reduceIte]
+      subst hkn
+      rw [← hr]; simp [blocks8]
+
+/-! ### `Unwrap`, the rounds -/
+
+/-- `unwrapInner` on a register list with one more register at the END: that register is
+processed first (the loop runs `i = n … 1`). -/
+theorem unwrapInner_snoc (D : Bytes → Bytes) (n j : Nat) (x : Bytes) :
+    ∀ (rs : List Bytes) (i : Nat) (a : Bytes),
+      unwrapInner D n j i (rs ++ [x]) a =
+        ((unwrapInner D n j i rs ((D (xor a (be64 (n * j + (i + rs.length))) ++ x)).take 8)).1,
+         (unwrapInner D n j i rs ((D (xor a (be64 (n * j + (i + rs.length))) ++ x)).take 8)).2 ++
+           [(D (xor a (be64 (n * j + (i + rs.length))) ++ x)).drop 8])
+  | [], i, a => by simp [unwrapInner]
+  | y :: rs, i, a => by
+    have ih := unwrapInner_snoc D n j x rs (i + 1) a
+    have e : i + 1 + rs.length = i + (rs.length + 1) := by omega
+    simp only [List.cons_append, unwrapInner, ih, List.length_cons, e]
+
+theorem unwrapInner_good (D : Bytes → Bytes) (hD : ∀ b : Bytes, b.length = 16 → (D b).length = 16)
+    (n j : Nat) : ∀ (rs : List Bytes) (i : Nat) (a : Bytes), a.length = 8 → Regs rs →
+      (unwrapInner D n j i rs a).1.length = 8 ∧ Regs (unwrapInner D n j i rs a).2 ∧
+      (unwrapInner D n j i rs a).2.length = rs.length
+  | [], i, a, ha, _ => by simp [unwrapInner, ha, Regs.nil]
+  | r :: rs, i, a, ha, hrs => by
+    have hr := hrs.head
+    obtain ⟨h1, h2, h3⟩ := unwrapInner_good D hD n j rs (i + 1) a ha hrs.tail
+    have hx : (xor (unwrapInner D n j (i + 1) rs a).1 (be64 (n * j + i))).length = 8 := by
+      simp [xor_length, h1, be64_length]
+    have hb := hD (xor (unwrapInner D n j (i + 1) rs a).1 (be64 (n * j + i)) ++ r) (by simp [hx, hr])
+    refine ⟨by simp [unwrapInner, hb], ?_, by simp [unwrapInner, h3]⟩
+    simp only [unwrapInner]
+    exact Regs.cons (by simp [hb]) h2
+
+theorem unwrapRounds_good (D : Bytes → Bytes) (hD : ∀ b : Bytes, b.length = 16 → (D b).length = 16)
+    (n : Nat) : ∀ (js : List Nat) (st : Bytes × List Bytes), GoodSt st →
+      GoodSt (unwrapRounds D n js st) ∧ (unwrapRounds D n js st).2.length = st.2.length
+  | [], st, h => ⟨h, rfl⟩
+  | j :: js, st, h => by
+    obtain ⟨g1, g2⟩ := unwrapRounds_good D hD n js st h
+    obtain ⟨h1, h2, h3⟩ :=
+      unwrapInner_good D hD n j (unwrapRounds D n js st).2 1 (unwrapRounds D n js st).1 g1.1 g1.2
+    rw [unwrapRounds_cons]
+    exact ⟨⟨h1, h2⟩, h3.trans g2⟩
+
+/-- One pass of the inner loop of `Unwrap` at `i = k + 1`: `B = D((A ⊕ t) ‖ R[i])`, `A = MSB64(B)`,
+`R[i] = LSB64(B)` — or out of fuel in `arrXor` (needs 9) / `arrConcat` (needs 2). -/
+theorem Unwrap_loop3_step (E D : List UInt8 → List UInt8)
+    (hD : ∀ b : List UInt8, b.length = 16 → (D b).length = 16)
+    (c : List UInt8) (n j : Nat) (hn : 6 * n ≤ 9223372036854775807) (hj : j ≤ 5)
+    (fuel k : Nat) (a : List UInt8) (r : List (List UInt8)) (hlt : k < n) (hr : r.length = n)
+    (ha : a.length = 8) (hregs : Regs r) (hkr : k < r.length) :
+    Unwrap_loop3 (fuel + 1) E D c a (n : Int) r (j : Int) ((k : Int) + 1) =
+        Unwrap_loop3 fuel E D c ((D (xor a (be64 (n * j + (k + 1))) ++ r[k])).take 8) (n : Int)
+          (setAt r (k : Int) ((D (xor a (be64 (n * j + (k + 1))) ++ r[k])).drop 8)) (j : Int) (k : Int)
+    ∨ (fuel ≤ 8 ∧
+        Unwrap_loop3 (fuel + 1) E D c a (n : Int) r (j : Int) ((k : Int) + 1) = .nofuel) := by
+  rw [Unwrap_loop3]
+  have h1 : decide ((k : Int) + 1 ≥ 1) = true := decide_eq_true (by omega)
+  have hw1 : wrapI64 ((k : Int) + 1 - 1) = (k : Int) := by
+    rw [wrapI64_of_in (by unfold InI64; omega)]; omega
+  have h2 : decide (0 ≤ (k : Int) ∧ (k : Int) < lenI r) = true := decide_eq_true (by unfold lenI; omega)
+  have hrk : r[k].length = 8 := Regs.getElem hregs k hkr
+  have ht : wrapI64 (wrapI64 ((n : Int) * (j : Int)) + ((k : Int) + 1)) = ((n * j + (k + 1) : Nat) : Int) := by
+    have := counter_eq n j (k + 1) hn hj hlt
+    rw [← this]; push_cast; rfl
+  have hxl : (xor a (be64 (n * j + (k + 1)))).length = 8 := by simp [xor_length, ha, be64_length]
+  have hab : (xor a (be64 (n * j + (k + 1))) ++ r[k]).length = 16 := by simp [hxl, hrk]
+  have hb : (D (xor a (be64 (n * j + (k + 1))) ++ r[k])).length = 16 := hD _ hab
+  have hbl : lenI (D (xor a (be64 (n * j + (k + 1))) ++ r[k])) = 16 := by simp [lenI, hb]
+  have hdl : ((D (xor a (be64 (n * j + (k + 1))) ++ r[k])).drop 8).length = 8 := by simp [hb]
+  have hfa : fill a ((D (xor a (be64 (n * j + (k + 1))) ++ r[k])).take 8) =
+      (D (xor a (be64 (n * j + (k + 1))) ++ r[k])).take 8 :=
+    fill_eq_of_length _ _ (by simp [hb, ha])
+  have hfr : fill r[k] ((D (xor a (be64 (n * j + (k + 1))) ++ r[k])).drop 8) =
+      (D (xor a (be64 (n * j + (k + 1))) ++ r[k])).drop 8 :=
+    fill_eq_of_length _ _ (by rw [hdl, hrk])
+  simp only [h1, dec8, ht, putU64BE_be64 _ (counter_lt n j (k + 1) hn hj hlt), Bool.not_true,
+    Bool.false_eq_true, ↓reduceIte]
+  rcases arrXor_cases a (be64 (n * j + (k + 1))) (by simp [ha, be64_length]) fuel with hx | ⟨hxf, hx⟩
+  · rw [hx]
+    simp only [hw1, h2, idxG_nat r k hkr, Bool.not_true, Bool.false_eq_true, ↓reduceIte]
+    rcases arrConcat_cases (xor a (be64 (n * j + (k + 1)))) [r[k]] fuel with hc | ⟨hcf, hc⟩
+    · have hfl : xor a (be64 (n * j + (k + 1))) ++ [r[k]].flatten = xor a (be64 (n * j + (k + 1))) ++ r[k] := by
+        simp
+      rw [hc, hfl]
+      left
+      simp only [hbl, ne2, div16, dec_0_8_16, dec_8_16_16, slice_0_8, slice_8_16 _ hb, hfa, hfr,
+        Bool.not_true, Bool.false_eq_true, ↓reduceIte]
+    · right; rw [hc]
+      have : fuel ≤ 1 := by simpa using hcf
+      exact ⟨by omega, rfl⟩
+  · right; rw [hx]
+    have : fuel ≤ 8 := by simpa [ha] using hxf
+    exact ⟨this, rfl⟩
+
+theorem take_set_self {α : Type} (l : List α) (k : Nat) (v : α) : (l.set k v).take k = l.take k := by
+  rw [List.take_set_of_le (Nat.le_refl k)]
+
+/-- The inner loop `for i := n; i >= 1; i--` of `Unwrap`, entered at `i = k` with `a` and the
+registers `r`: the model's `unwrapInner` on the first `k` registers (the last of them first). -/
+theorem Unwrap_loop3_cases (E D : List UInt8 → List UInt8)
+    (hD : ∀ b : List UInt8, b.length = 16 → (D b).length = 16)
+    (c : List UInt8) (n j : Nat) (hn : 6 * n ≤ 9223372036854775807) (hj : j ≤ 5) :
+    ∀ (fuel k : Nat) (a : List UInt8) (r : List (List UInt8)), k ≤ n → r.length = n → a.length = 8 →
+      Regs r →
+      Unwrap_loop3 fuel E D c a (n : Int) r (j : Int) (k : Int) =
+          .ok (.brk ((unwrapInner D n j 1 (r.take k) a).1,
+                     (unwrapInner D n j 1 (r.take k) a).2 ++ r.drop k, (0 : Int)))
+      ∨ (fuel ≤ k + 8 ∧ Unwrap_loop3 fuel E D c a (n : Int) r (j : Int) (k : Int) = .nofuel) := by
+  intro fuel
+  induction fuel with
+  | zero => intro k a r _ _ _ _; right; exact ⟨by omega, by unfold Unwrap_loop3; rfl⟩
+  | succ fuel ih =>
+    intro k a r hk hr ha hregs
+    cases k with
+    | zero =>
+      left
+      unfold Unwrap_loop3
+      have h1 : decide (((0 : Nat) : Int) ≥ 1) = false := by decide
+      simp only [h1, Bool.false_eq_true, ↓reduceIte]
+      simp [unwrapInner]
+    | succ k =>
+      have hkr : k < r.length := by omega
+      have hrk : r[k].length = 8 := Regs.getElem hregs k hkr
+      have hxl : (xor a (be64 (n * j + (k + 1)))).length = 8 := by simp [xor_length, ha, be64_length]
+      have hb : (D (xor a (be64 (n * j + (k + 1))) ++ r[k])).length = 16 := hD _ (by simp [hxl, hrk])
+      have hk1 : (((k + 1 : Nat)) : Int) = (k : Int) + 1 := by push_cast; rfl
+      rw [hk1]
+      rcases Unwrap_loop3_step E D hD c n j hn hj fuel k a r (by omega) hr ha hregs hkr with hs | ⟨hsf, hs⟩
+      · rw [hs]
+        rcases ih k ((D (xor a (be64 (n * j + (k + 1))) ++ r[k])).take 8)
+          (setAt r (k : Int) ((D (xor a (be64 (n * j + (k + 1))) ++ r[k])).drop 8)) (by omega)
+          (by simp [setAt, hr]) (by simp [hb]) (Regs.setAt hregs _ _ (by simp [hb])) with h | ⟨hf, h⟩
+        · left
+          rw [h]
+          have htk : (setAt r (k : Int) ((D (xor a (be64 (n * j + (k + 1))) ++ r[k])).drop 8)).take k =
+              r.take k := by
+            simp only [setAt, Int.toNat_natCast]
+            exact take_set_self r k _
+          have hdk : (setAt r (k : Int) ((D (xor a (be64 (n * j + (k + 1))) ++ r[k])).drop 8)).drop k =
+              (D (xor a (be64 (n * j + (k + 1))) ++ r[k])).drop 8 :: r.drop (k + 1) := by
+            simp only [setAt, Int.toNat_natCast]
+            rw [List.drop_eq_getElem_cons (by simp; omega), drop_set_succ]
+            simp
+          have hlk : (r.take k).length = k := by simp; omega
+          have e : n * j + (1 + k) = n * j + (k + 1) := by omega
+          rw [htk, hdk, List.take_succ_eq_append_getElem hkr, unwrapInner_snoc, hlk, e]
+          simp only [List.append_assoc, List.cons_append, List.nil_append]
+        · right; rw [h]; exact ⟨by omega, rfl⟩
+      · right; exact ⟨by omega, hs⟩
+
+theorem kwRounds_range6 : List.range 6 = kwRounds := by decide
+
+/-- The outer loop `for j := 5; j >= 0; j--` of `Unwrap`, entered at `j = m - 1`: the model's
+`unwrapRounds` over `[0, …, m-1]` (a `foldr`: the last value first). -/
+theorem Unwrap_loop2_cases (E D : List UInt8 → List UInt8)
+    (hD : ∀ b : List UInt8, b.length = 16 → (D b).length = 16)
+    (c : List UInt8) (n : Nat) (hn : 6 * n ≤ 9223372036854775807) :
+    ∀ (fuel m : Nat) (a : List UInt8) (r : List (List UInt8)), m ≤ 6 → r.length = n → a.length = 8 →
+      Regs r →
+      Unwrap_loop2 fuel E D c a (n : Int) r ((m : Int) - 1) =
+          .ok (.brk ((unwrapRounds D n (List.range m) (a, r)).1,
+                     (unwrapRounds D n (List.range m) (a, r)).2, (-1 : Int)))
+      ∨ (fuel ≤ n + 8 + m ∧ Unwrap_loop2 fuel E D c a (n : Int) r ((m : Int) - 1) = .nofuel) := by
+  intro fuel
+  induction fuel with
+  | zero => intro m a r _ _ _ _; right; exact ⟨by omega, by unfold Unwrap_loop2; rfl⟩
+  | succ fuel ih =>
+    intro m a r hm hr ha hregs
+    unfold Unwrap_loop2
+    cases m with
+    | zero =>
+      left
+      have h1 : decide ((((0 : Nat) : Int) - 1) ≥ 0) = false := by decide
+      simp only [h1, Bool.false_eq_true, ↓reduceIte]
+      simp [unwrapRounds]
+    | succ m =>
+      have hj : (((m + 1 : Nat)) : Int) - 1 = (m : Int) := by push_cast; omega
+      have h1 : decide ((m : Int) ≥ 0) = true := decide_eq_true (by omega)
+      have hw : wrapI64 ((m : Int) - 1) = (m : Int) - 1 := wrapI64_of_in (by unfold InI64; omega)
+      have h3 := Unwrap_loop3_cases E D hD c n m hn (by omega) fuel n a r (by omega) hr ha hregs
+      have htn : r.take n = r := by rw [← hr]; exact List.take_length
+      have hdn : r.drop n = [] := List.drop_of_length_le (by omega)
+      simp only [htn, hdn, List.append_nil] at h3
+      rw [hj]
+      simp only [h1, ↓reduceIte]
+      rcases h3 with h3 | ⟨h3f, h3⟩
+      · obtain ⟨g1, g2, g3⟩ := unwrapInner_good D hD n m r 1 a ha hregs
+        rw [h3]
+        simp only [hw]
+        rcases ih m _ _ (by omega) (g3.trans hr) g1 g2 with h | ⟨hf, h⟩
+        · left
+          rw [h]
+          simp only [unwrapRounds, List.range_succ, List.foldr_append, List.foldr_cons, List.foldr_nil]
+        · right; rw [h]; exact ⟨by omega, rfl⟩
+      · right; rw [h3]; exact ⟨by omega, rfl⟩
+
+/-! ### `Unwrap` -/
+
+theorem iv_lit : ([166, 166, 166, 166, 166, 166, 166, 166] : List UInt8) = iv3394 := by decide
+
+/-- **Core.** For ANY fuel: the translated `Unwrap` returns exactly what the model returns, or — only
+when `fuel ≤ len(cipherText)/8 + 13` — is still in one of its loops. Hypotheses: `D` keeps 16-byte
+blocks 16 bytes long; `len(cipherText)` is a Go `int`. -/
+theorem unwrap_code_cases (E D : List UInt8 → List UInt8)
+    (hD : ∀ b : List UInt8, b.length = 16 → (D b).length = 16) (c : List UInt8)
+    (hlen : (c.length : Int) ≤ 9223372036854775807) (fuel : Nat) :
+    Unwrap fuel E D c = .ok (enc' (unwrap ⟨E, D⟩ c))
+    ∨ (fuel ≤ c.length / 8 + 13 ∧ Unwrap fuel E D c = .nofuel) := by
+  unfold Unwrap unwrap unwrapState
+  simp only [ne8, modI64_len8, Bool.or_true, Bool.not_true, Bool.false_eq_true, ↓reduceIte]
+  by_cases hbad : c.length < 24 ∨ c.length % 8 ≠ 0
+  · have hcond : (decide (lenI c < 24) || (((c.length % 8 : Nat) : Int) != 0)) = true := by
+      rcases hbad with h | h
+      · have : decide (lenI c < 24) = true := decide_eq_true (by unfold lenI; omega)
+        rw [this, Bool.true_or]
+      · have : (((c.length % 8 : Nat) : Int) != 0) = true := by simp; omega
+        rw [this, Bool.or_true]
+    left
+    simp only [hcond, ↓reduceIte, if_pos hbad, enc']
+  · have h24 : decide (lenI c < 24) = false := decide_eq_false (by unfold lenI; omega)
+    have h8' : (((c.length % 8 : Nat) : Int) != 0) = false := by
+      have : c.length % 8 = 0 := by omega
+      simp [this]
+    simp only [h24, h8', Bool.or_false, Bool.false_eq_true, ↓reduceIte, if_neg hbad]
+    have hn8 : 8 * (c.length / 8 - 1 + 1) = c.length := by omega
+    have hnmax : 6 * (c.length / 8 - 1) ≤ 9223372036854775807 := by omega
+    have hdiv := divI64_len8 c hlen
+    have hwn : wrapI64 (((c.length / 8 : Nat) : Int) - 1) = ((c.length / 8 - 1 : Nat) : Int) := by
+      rw [wrapI64_of_in (by unfold InI64; omega)]; omega
+    have hn0 : decide ((0 : Int) ≤ ((c.length / 8 - 1 : Nat) : Int)) = true := decide_eq_true (by omega)
+    have hc8 : decide ((0 : Int) ≤ 0 ∧ (0 : Int) ≤ 8 ∧ (8 : Int) ≤ lenI c) = true :=
+      decide_eq_true (by unfold lenI; omega)
+    have hn2 : 2 ≤ c.length / 8 - 1 := by omega
+    have hfa : fill (List.replicate (8 : Int).toNat (0 : UInt8)) (slice c (0 : Int) (8 : Int)) = c.take 8 := by
+      rw [slice_0_8]
+      exact fill_eq_of_length _ _ (by simp; omega)
+    have hfuel : c.length / 8 + 13 = (c.length / 8 - 1) + 14 := by omega
+    rw [hfuel]
+    generalize hnd : c.length / 8 - 1 = n at *
+    simp only [dec8, hdiv, hwn, hn0, Int.toNat_natCast, Bool.not_true, Bool.false_eq_true, ↓reduceIte]
+    have hl0 : lenI (List.replicate n ([] : List UInt8)) = (n : Int) := by simp [lenI]
+    rw [hl0]
+    have h1 := Unwrap_loop1_cases E D c (List.replicate (8 : Int).toNat 0) (n : Int) (List.replicate n []) n
+      (by omega) hlen fuel 0 (List.replicate n []) (by omega) (by simp)
+    simp only [Int.natCast_zero, List.take_zero, List.nil_append, Nat.sub_zero, Nat.zero_add, Nat.mul_one]
+      at h1
+    rcases h1 with h1 | ⟨h1f, h1⟩
+    · rw [h1]
+      simp only [hc8, hfa, Bool.not_true, Bool.false_eq_true, ↓reduceIte]
+      have hgood : GoodSt (c.take 8, blocks8 n (c.drop 8)) :=
+        ⟨by simp; omega, blocks8_regs _ _ (by simp; omega)⟩
+      have h2 := Unwrap_loop2_cases E D hD c n hnmax fuel 6 (c.take 8) (blocks8 n (c.drop 8)) (by omega)
+        (blocks8_length _ _) hgood.1 hgood.2
+      have e5 : (((6 : Nat) : Int) - 1) = (5 : Int) := by decide
+      simp only [e5, kwRounds_range6] at h2
+      rcases h2 with h2 | ⟨h2f, h2⟩
+      · rw [h2]
+        obtain ⟨g1, g2⟩ := unwrapRounds_good D hD n kwRounds _ hgood
+        simp only [blocks8_length] at g2
+        generalize unwrapRounds D n kwRounds (c.take 8, blocks8 n (c.drop 8)) = st at *
+        simp only [iv_lit]
+        by_cases hiv : st.1 = iv3394
+        · have hiv' : ((if st.1 == iv3394 then (1 : Int) else 0) != 1) = false := by simp [hiv]
+          have hne : ¬ (st.1 ≠ iv3394) := fun h => h hiv
+          simp only [hiv', Bool.false_eq_true, ↓reduceIte, if_neg hne, enc']
+          have hne2 : st.2 ≠ [] := by
+            intro h; rw [h] at g2; simp at g2; omega
+          cases hst : st.2 with
+          | nil => exact absurd hst hne2
+          | cons x rest =>
+            rw [hst] at g2
+            rcases arrConcat_cases x rest fuel with hc | ⟨hcf, hc⟩
+            · left; rw [hc]; simp
+            · right; rw [hc]
+              simp only [List.length_cons] at g2
+              exact ⟨by omega, rfl⟩
+        · have hiv' : ((if st.1 == iv3394 then (1 : Int) else 0) != 1) = true := by simp [hiv]
+          have hne : st.1 ≠ iv3394 := hiv
+          left
+          simp only [hiv', ↓reduceIte, if_pos hne, enc']
+      · right; rw [h2]; exact ⟨by omega, rfl⟩
+    · right; rw [h1]; exact ⟨by omega, rfl⟩
+
+/-! ### The theorems asked for -/
+
+/-- **The translated `Wrap` is the model's `wrap`**: every block cipher whose `Encrypt` keeps 16-byte
+blocks 16 bytes long (`hE`; it is the field `lenE` of `bc.Lawful` — nothing else of `Lawful`/`Perm` is
+used, and nothing about `bc.D`), every key data `cek` whose OUTPUT length `len(cek) + 8` is a Go `int`
+(see `wrap_code_panics_at_max` for the one aligned length excluded by this), every fuel
+`≥ len(cek)/8 + 15` (the least that works: `wrap_code_fuel_tight`). -/
+theorem wrap_code_eq_model (bc : BlockCipher)
+    (hE : ∀ b : List UInt8, b.length = 16 → (bc.E b).length = 16) (cek : List UInt8)
+    (hlen : (cek.length : Int) + 8 ≤ 9223372036854775807) :
+    ∀ fuel, cek.length / 8 + 15 ≤ fuel → Wrap fuel bc.E bc.D cek = .ok (enc' (wrap bc cek)) := by
+  intro fuel hf
+  rcases wrap_code_cases bc.E bc.D hE cek hlen fuel with h | ⟨hf', _⟩
+  · exact h
+  · omega
+
+/-- The same from `bc.Lawful`, under the bound `len(cek) ≤ 2^40` of the task statement. -/
+theorem wrap_code_eq_model_of_lawful (bc : BlockCipher) (hL : bc.Lawful) (cek : List UInt8)
+    (hlen : (cek.length : Int) ≤ 2 ^ 40) :
+    ∀ fuel, cek.length / 8 + 15 ≤ fuel → Wrap fuel bc.E bc.D cek = .ok (enc' (wrap bc cek)) :=
+  wrap_code_eq_model bc hL.lenE cek (by have : (2 : Int) ^ 40 = 1099511627776 := by decide
+                                        omega)
+
+/-- **The translated `Unwrap` is the model's `unwrap`**: every block cipher whose `Decrypt` keeps
+16-byte blocks 16 bytes long (`hD`; it is the field `lenD` of `bc.Perm` — nothing else is used, and
+nothing about `bc.E`), every input whose length is a Go `int`, every fuel `≥ len(cipherText)/8 + 14`
+(the least that works: `unwrap_code_fuel_tight`). -/
+theorem unwrap_code_eq_model (bc : BlockCipher)
+    (hD : ∀ b : List UInt8, b.length = 16 → (bc.D b).length = 16) (c : List UInt8)
+    (hlen : (c.length : Int) ≤ 9223372036854775807) :
+    ∀ fuel, c.length / 8 + 14 ≤ fuel → Unwrap fuel bc.E bc.D c = .ok (enc' (unwrap bc c)) := by
+  intro fuel hf
+  rcases unwrap_code_cases bc.E bc.D hD c hlen fuel with h | ⟨hf', _⟩
+  · exact h
+  · omega
+
+theorem unwrap_code_eq_model_of_perm (bc : BlockCipher) (hP : bc.Perm) (c : List UInt8)
+    (hlen : (c.length : Int) ≤ 2 ^ 40) :
+    ∀ fuel, c.length / 8 + 14 ≤ fuel → Unwrap fuel bc.E bc.D c = .ok (enc' (unwrap bc c)) :=
+  unwrap_code_eq_model bc hP.lenD c (by have : (2 : Int) ^ 40 = 1099511627776 := by decide
+                                        omega)
+
+/-- On the translated code itself, ARBITRARY `B_Enc`, `B_Dec` with `B_Enc` keeping 16-byte blocks
+16 bytes long (nothing is asked of `B_Dec`: `Wrap` never calls it): no key data and no amount of fuel
+makes `Wrap` panic — `arrays[0]`, `arrR[x]`, `r[i]`, `r[i-1]`, `r[i-1][j]`, `c[(i*8)+j]`, `cek[i*8:]`,
+`b[:len(b)/2]`, `b[len(b)/2:]`, the three `make`s, `% 8`, `/ 8`, `/ 2`. -/
+theorem wrap_code_never_panics (B_Enc B_Dec : List UInt8 → List UInt8)
+    (hE : ∀ b : List UInt8, b.length = 16 → (B_Enc b).length = 16) (cek : List UInt8)
+    (hlen : (cek.length : Int) + 8 ≤ 9223372036854775807) :
+    ∀ fuel msg, Wrap fuel B_Enc B_Dec cek ≠ .panic msg := by
+  intro fuel msg
+  rcases wrap_code_cases B_Enc B_Dec hE cek hlen fuel with h | ⟨_, h⟩ <;> (rw [h]; intro h'; cases h')
+
+/-- On the translated code itself: fuel `len(cek)/8 + 15` always suffices. -/
+theorem wrap_code_terminates (B_Enc B_Dec : List UInt8 → List UInt8)
+    (hE : ∀ b : List UInt8, b.length = 16 → (B_Enc b).length = 16) (cek : List UInt8)
+    (hlen : (cek.length : Int) + 8 ≤ 9223372036854775807) :
+    ∃ r, Wrap (cek.length / 8 + 15) B_Enc B_Dec cek = .ok r :=
+  ⟨_, wrap_code_eq_model ⟨B_Enc, B_Dec⟩ hE cek hlen _ (Nat.le_refl _)⟩
+
+/-- On the translated code itself, ARBITRARY `B_Enc`, `B_Dec` with `B_Dec` keeping 16-byte blocks
+16 bytes long (nothing is asked of `B_Enc`: `Unwrap` never calls it): no input (its length a Go
+`int`) and no amount of fuel makes `Unwrap` panic — in particular `make([][]byte, n)` with `n < 0`
+and `arrConcat(r...)` with no register, the two panics of the unchanged tree, are unreachable behind
+the length check. -/
+theorem unwrap_code_never_panics (B_Enc B_Dec : List UInt8 → List UInt8)
+    (hD : ∀ b : List UInt8, b.length = 16 → (B_Dec b).length = 16) (c : List UInt8)
+    (hlen : (c.length : Int) ≤ 9223372036854775807) :
+    ∀ fuel msg, Unwrap fuel B_Enc B_Dec c ≠ .panic msg := by
+  intro fuel msg
+  rcases unwrap_code_cases B_Enc B_Dec hD c hlen fuel with h | ⟨_, h⟩ <;> (rw [h]; intro h'; cases h')
+
+/-- On the translated code itself: fuel `len(cipherText)/8 + 14` always suffices. -/
+theorem unwrap_code_terminates (B_Enc B_Dec : List UInt8 → List UInt8)
+    (hD : ∀ b : List UInt8, b.length = 16 → (B_Dec b).length = 16) (c : List UInt8)
+    (hlen : (c.length : Int) ≤ 9223372036854775807) :
+    ∃ r, Unwrap (c.length / 8 + 14) B_Enc B_Dec c = .ok r :=
+  ⟨_, unwrap_code_eq_model ⟨B_Enc, B_Dec⟩ hD c hlen _ (Nat.le_refl _)⟩
+
+/-- Transfer of `Props/C03.unwrap_wrap` to the two translated functions: for a block cipher with
+`D ∘ E = id` on blocks (`bc.Lawful`) whose `Decrypt` keeps the block length (`hD`; both are in
+`bc.Perm`), every key data RFC 3394 accepts (whole 64-bit blocks, at least two) is wrapped by the
+translated `Wrap` into `len + 8` bytes, without error, and the translated `Unwrap` gives it back,
+without error — with the same fuel on both sides. -/
+theorem unwrap_wrap_code_roundtrip (bc : BlockCipher) (hL : bc.Lawful)
+    (hD : ∀ b : List UInt8, b.length = 16 → (bc.D b).length = 16) (cek : List UInt8)
+    (h8 : cek.length % 8 = 0) (h16 : 16 ≤ cek.length)
+    (hlen : (cek.length : Int) + 8 ≤ 9223372036854775807) (fuel : Nat)
+    (hf : cek.length / 8 + 15 ≤ fuel) :
+    ∃ w, Wrap fuel bc.E bc.D cek = .ok (w, none) ∧ w.length = cek.length + 8 ∧
+      Unwrap fuel bc.E bc.D w = .ok (cek, none) := by
+  obtain ⟨w, hw, hwl, hu⟩ := unwrap_wrap bc hL cek h8 h16
+  refine ⟨w, ?_, hwl, ?_⟩
+  · rw [wrap_code_eq_model bc hL.lenE cek hlen fuel hf, hw]; rfl
+  · rw [unwrap_code_eq_model bc hD w (by rw [hwl]; push_cast; omega) fuel (by rw [hwl]; omega), hu]; rfl
+
+theorem unwrap_wrap_code_roundtrip_of_perm (bc : BlockCipher) (hP : bc.Perm) (cek : List UInt8)
+    (h8 : cek.length % 8 = 0) (h16 : 16 ≤ cek.length)
+    (hlen : (cek.length : Int) + 8 ≤ 9223372036854775807) (fuel : Nat)
+    (hf : cek.length / 8 + 15 ≤ fuel) :
+    ∃ w, Wrap fuel bc.E bc.D cek = .ok (w, none) ∧ w.length = cek.length + 8 ∧
+      Unwrap fuel bc.E bc.D w = .ok (cek, none) :=
+  unwrap_wrap_code_roundtrip bc hP.toLawful hP.lenD cek h8 h16 hlen fuel hf
+
+theorem wrap_ok_len (bc : BlockCipher) (p c : Bytes) (h : wrap bc p = .ok c) :
+    p.length % 8 = 0 ∧ 16 ≤ p.length := by
+  unfold wrap at h
+  by_cases h8 : p.length % 8 ≠ 0
+  · rw [if_pos h8] at h; cases h
+  · rw [if_neg h8] at h
+    by_cases h16 : p.length < 16
+    · rw [if_pos h16] at h; cases h
+    · exact ⟨by omega, by omega⟩
+
+/-- Transfer of `Props/C03.unwrap_accepts_only_wrap`: whatever the translated `Unwrap` accepts is
+the translated `Wrap` of what it returns (for a permutation). -/
+theorem unwrap_code_accepts_only_wrap (bc : BlockCipher) (hP : bc.Perm) (c p : List UInt8)
+    (hlen : (c.length : Int) ≤ 9223372036854775807) (fuel : Nat) (hf : c.length / 8 + 14 ≤ fuel)
+    (h : Unwrap fuel bc.E bc.D c = .ok (p, none)) :
+    Wrap fuel bc.E bc.D p = .ok (c, none) := by
+  rw [unwrap_code_eq_model bc hP.lenD c hlen fuel hf] at h
+  have h' : enc' (unwrap bc c) = (p, none) := by injection h
+  have hu : unwrap bc c = .ok p := by
+    cases hu : unwrap bc c with
+    | ok b => rw [hu] at h'; simp only [enc', Prod.mk.injEq] at h'; rw [h'.1]
+    | err e => rw [hu] at h'; simp [enc'] at h'
+    | panic w => exact absurd hu (unwrap_model_no_panic _ _ w)
+  have hw := unwrap_accepts_only_wrap bc hP c p hu
+  -- `len(p) = len(c) - 8`
+  obtain ⟨hp8, hp16⟩ := wrap_ok_len bc p c hw
+  have hpl : p.length + 8 = c.length := by
+    obtain ⟨w, hw1, hw2, _⟩ := unwrap_wrap bc hP.toLawful p hp8 hp16
+    rw [hw] at hw1; injection hw1 with hw1; rw [hw1]; exact hw2.symm
+  rw [wrap_code_eq_model bc hP.lenE p (by omega) fuel (by omega), hw]; rfl
+
+/-! ### Non-vacuity: the translated functions, evaluated -/
+
+/-- A toy block function: byte-wise `+1` / `-1` (a permutation of the 16-byte blocks). -/
+def toyE (b : List UInt8) : List UInt8 := b.map (· + 1)
+def toyD (b : List UInt8) : List UInt8 := b.map (· - 1)
+
+theorem toyE_len (b : List UInt8) (h : b.length = 16) : (toyE b).length = 16 := by simp [toyE, h]
+theorem toyD_len (b : List UInt8) (h : b.length = 16) : (toyD b).length = 16 := by simp [toyD, h]
+
+/-- 16 bytes `00 … 0f` -/
+example : Wrap 17 toyE toyD [0, 1, 2, 3, 4, 5, 6, 7, 8, 9, 10, 11, 12, 13, 14, 15] =
+    .ok ([178, 178, 178, 178, 178, 178, 178, 170, 6, 7, 8, 9, 10, 11, 12, 13, 14, 15, 16, 17, 18, 19, 20, 21],
+      none) := by decide +kernel
+example : enc' (wrap ⟨toyE, toyD⟩ [0, 1, 2, 3, 4, 5, 6, 7, 8, 9, 10, 11, 12, 13, 14, 15]) =
+    ([178, 178, 178, 178, 178, 178, 178, 170, 6, 7, 8, 9, 10, 11, 12, 13, 14, 15, 16, 17, 18, 19, 20, 21],
+      none) := by decide +kernel
+example : Unwrap 17 toyE toyD
+    [178, 178, 178, 178, 178, 178, 178, 170, 6, 7, 8, 9, 10, 11, 12, 13, 14, 15, 16, 17, 18, 19, 20, 21] =
+    .ok ([0, 1, 2, 3, 4, 5, 6, 7, 8, 9, 10, 11, 12, 13, 14, 15], none) := by decide +kernel
+/-- one changed byte: the integrity register is not the IV any more -/
+example : Unwrap 17 toyE toyD
+    [179, 178, 178, 178, 178, 178, 178, 170, 6, 7, 8, 9, 10, 11, 12, 13, 14, 15, 16, 17, 18, 19, 20, 21] =
+    .ok ([], some "errors.New") := by decide +kernel
+/-- 24 bytes `00 … 17` -/
+example : Wrap 18 toyE toyD
+    [0, 1, 2, 3, 4, 5, 6, 7, 8, 9, 10, 11, 12, 13, 14, 15, 16, 17, 18, 19, 20, 21, 22, 23] =
+    .ok ([184, 184, 184, 184, 184, 184, 184, 181, 6, 7, 8, 9, 10, 11, 12, 13, 14, 15, 16, 17, 18, 19, 20, 21,
+      22, 23, 24, 25, 26, 27, 28, 29], none) := by decide +kernel
+example : Unwrap 18 toyE toyD
+    [184, 184, 184, 184, 184, 184, 184, 181, 6, 7, 8, 9, 10, 11, 12, 13, 14, 15, 16, 17, 18, 19, 20, 21,
+      22, 23, 24, 25, 26, 27, 28, 29] =
+    .ok ([0, 1, 2, 3, 4, 5, 6, 7, 8, 9, 10, 11, 12, 13, 14, 15, 16, 17, 18, 19, 20, 21, 22, 23], none) := by
+  decide +kernel
+/-- another block function: `List.reverse` (an involution) -/
+example : Wrap 17 List.reverse List.reverse [0, 1, 2, 3, 4, 5, 6, 7, 8, 9, 10, 11, 12, 13, 14, 15] =
+    .ok ([166, 166, 166, 166, 166, 166, 166, 166, 8, 1, 2, 3, 4, 5, 6, 7, 12, 9, 10, 11, 12, 13, 14, 15],
+      none) := by decide +kernel
+example : Unwrap 17 List.reverse List.reverse
+    [166, 166, 166, 166, 166, 166, 166, 166, 8, 1, 2, 3, 4, 5, 6, 7, 12, 9, 10, 11, 12, 13, 14, 15] =
+    .ok ([0, 1, 2, 3, 4, 5, 6, 7, 8, 9, 10, 11, 12, 13, 14, 15], none) := by decide +kernel
+/-- a 15-byte and an 8-byte key: refused with an error, no output (no fuel needed) -/
+example : Wrap 0 toyE toyD [0, 1, 2, 3, 4, 5, 6, 7, 8, 9, 10, 11, 12, 13, 14] =
+    .ok ([], some "errors.New") := by decide +kernel
+example : Wrap 0 toyE toyD [0, 1, 2, 3, 4, 5, 6, 7] = .ok ([], some "errors.New") := by decide +kernel
+/-- a 16-byte and a 25-byte input of `Unwrap`: refused -/
+example : Unwrap 0 toyE toyD (List.replicate 16 0) = .ok ([], some "errors.New") := by decide +kernel
+example : Unwrap 0 toyE toyD (List.replicate 25 0) = .ok ([], some "errors.New") := by decide +kernel
+/-- the helpers -/
+example : arrConcat 4 [[1, 2], [], [3], [4, 5]] = .ok [1, 2, 3, 4, 5] := by decide +kernel
+example : arrConcat 4 [[1, 2], [], [3], [4, 5]] = .ok [[1, 2], [], [3], [4, 5]].flatten :=
+  arrConcat_code _ (by simp) 4 (by simp)
+example : arrConcat 3 [[1, 2], [], [3], [4, 5]] = .nofuel := by decide +kernel
+example : arrConcat 100 [] = .panic "index out of range: arrays[0]" := by decide +kernel
+example : arrXor 4 [1, 2, 3] [255, 255, 255, 9] = .ok [254, 253, 252] := by decide +kernel
+example : arrXor 4 [1, 2, 3] [255, 255] = .panic "index out of range: arrR[x]" := by decide +kernel
+
+/-- The fuel bounds are the least ones: one unit less and the function is still looping. -/
+theorem wrap_code_fuel_tight :
+    Wrap 16 toyE toyD [0, 1, 2, 3, 4, 5, 6, 7, 8, 9, 10, 11, 12, 13, 14, 15] = .nofuel := by decide +kernel
+
+theorem unwrap_code_fuel_tight :
+    Unwrap 16 toyE toyD
+      [178, 178, 178, 178, 178, 178, 178, 170, 6, 7, 8, 9, 10, 11, 12, 13, 14, 15, 16, 17, 18, 19, 20, 21] =
+    .nofuel := by decide +kernel
+
+/-- The hypothesis on `B_Enc` is needed: a "block function" that returns 32 bytes makes
+`arrXor(b[:len(b)/2], tBytes)` read `tBytes[8]`. (A real `cipher.Block` writes into the 16-byte `b`
+in place, so its length cannot change: the hypothesis is the in-place contract.) -/
+theorem wrap_code_panics_if_block_grows :
+    Wrap 17 (fun b => b ++ b) toyD [0, 1, 2, 3, 4, 5, 6, 7, 8, 9, 10, 11, 12, 13, 14, 15] =
+      .panic "index out of range: arrR[x]" := by decide +kernel
+
+/-- The hypothesis of `wrap_code_panics_at_max` is satisfiable (as a mathematical list). -/
+example : ∃ cek : List UInt8, cek.length = 9223372036854775800 :=
+  ⟨List.replicate 9223372036854775800 0, List.length_replicate⟩
+
+/-- The instances of the general theorems used above are not vacuous. -/
+example : ∃ r, Wrap 17 toyE toyD [0, 1, 2, 3, 4, 5, 6, 7, 8, 9, 10, 11, 12, 13, 14, 15] = .ok r :=
+  wrap_code_terminates toyE toyD toyE_len _ (by decide)
+example : ∃ r, Unwrap 17 toyE toyD (List.replicate 24 0) = .ok r :=
+  unwrap_code_terminates toyE toyD toyD_len _ (by decide)
+example : ∃ w, Wrap 17 toyE toyD [0, 1, 2, 3, 4, 5, 6, 7, 8, 9, 10, 11, 12, 13, 14, 15] = .ok (w, none) ∧
+    w.length = 24 ∧ Unwrap 17 toyE toyD w = .ok ([0, 1, 2, 3, 4, 5, 6, 7, 8, 9, 10, 11, 12, 13, 14, 15], none) :=
+  unwrap_wrap_code_roundtrip ⟨toyE, toyD⟩
+    ⟨toyE_len, fun b _ => by
+      simp only [toyE, toyD, List.map_map]
+      have : ((fun x : UInt8 => x - 1) ∘ fun x => x + 1) = id := by
+        funext x; simp
+      rw [this, List.map_id]⟩
+    toyD_len _ (by decide) (by decide) (by decide) 17 (by decide)
 
 end Kit.CryptoGlue.Code
